@@ -302,6 +302,7 @@ VA:
 					}
 
 					if consistent {
+						created := false
 						for i := 0; i < MAX_INPUTS; i++ {
 							guessed := VarCell{gent, INPUT, i, i, i, rcell.Global_id, rcell.Start_globalid, rcell.End_globalid}
 							present := false
@@ -318,8 +319,13 @@ VA:
 									useditem <- UsageNotify{TR_PROC, rproc, C_INPUT, S_NIL, rcell.Global_id}
 								}
 								busylist[rproc] = append(busylist[rproc], guessed)
+								created = true
 								break
 							}
+						}
+						if !created {
+							// Every slot is in use: the requester is waiting for an answer
+							resp <- VarAns{ANS_FAIL, VarCell{gent, 0, 0, 0, 0, 0, 0, 0}}
 						}
 					} else {
 						resp <- VarAns{ANS_FAIL, VarCell{gent, 0, 0, 0, 0, 0, 0, 0}}
@@ -367,6 +373,7 @@ VA:
 
 					if consistent {
 
+						created := false
 						for i := 0; i < MAX_OUTPUTS; i++ {
 							guessed := VarCell{gent, OUTPUT, i, i, i, rcell.Global_id, rcell.Start_globalid, rcell.End_globalid}
 							present := false
@@ -383,8 +390,13 @@ VA:
 									useditem <- UsageNotify{TR_PROC, rproc, C_OUTPUT, S_NIL, rcell.Global_id}
 								}
 								busylist[rproc] = append(busylist[rproc], guessed)
+								created = true
 								break
 							}
+						}
+						if !created {
+							// Every slot is in use: the requester is waiting for an answer
+							resp <- VarAns{ANS_FAIL, VarCell{gent, 0, 0, 0, 0, 0, 0, 0}}
 						}
 					} else {
 						resp <- VarAns{ANS_FAIL, VarCell{gent, 0, 0, 0, 0, 0, 0, 0}}
